@@ -72,6 +72,13 @@ def relayout(rng, X, ep):
 
 
 def oracle(case, rng, thorough=False):
+    try:
+        return _oracle(case, rng, thorough)
+    except Exception as ex:
+        return f'shift_episodes / fit raised {type(ex).__name__}: {ex}', {'raised': True}
+
+
+def _oracle(case, rng, thorough=False):
     """coef_ of fit(X) == fit(Xu, Xs) == fit(relabelled / reordered X), on well-conditioned float data"""
     nx, nu, ep = case['nx'], case['nu'], case['ep']
     e = 1 if ep else 0
@@ -111,6 +118,8 @@ def oracle(case, rng, thorough=False):
         ue = [Ue for ll, Ue in st.ref_split(Xu, ep) if ll == l]
         se = [Se for ll, Se in st.ref_split(Xs, ep) if ll == l]
         if Xe.shape[0] >= 2:
+            if len(ue) != 1 or len(se) != 1:
+                return f'episode {l}: shift_episodes returns {len(ue)} / {len(se)} blocks for this label, expected one each', {}
             if not (np.array_equal(ue[0], Xe[:-1]) and np.array_equal(se[0], Xe[1:, :nx])):
                 return f'episode {l}: shift_episodes is not (rows 0..n-2, states of rows 1..n-1)', {}
     for name, mk in regressors(rng, nu, thorough):
